@@ -318,6 +318,26 @@ where
     }
 }
 
+/// Verification hooks (raw state access); only built with the `verif` feature.
+#[cfg(feature = "verif")]
+#[doc(hidden)]
+impl<T, C, B> CountMinSketch<T, C, B>
+where
+    T: Hash + ?Sized,
+    C: CheckedAdd + Clone + One + Ord + Unsigned + Zero,
+    B: BuildHasher + Clone + Eq,
+{
+    /// Raw counter table (row-major, `d` rows of `w` counters).
+    pub fn verif_table(&self) -> &Vec<C> {
+        &self.table
+    }
+
+    /// Raw counter table, mutable.
+    pub fn verif_table_mut(&mut self) -> &mut Vec<C> {
+        &mut self.table
+    }
+}
+
 #[cfg(test)]
 mod tests {
     use super::CountMinSketch;
